@@ -171,6 +171,12 @@ def _pair(ctx, c1, runs1, c2, runs2, kind):
             bad('constructor-iterable:%s' % form, 'Group(%r, <%s of %r>) = %r, from the list %r' % (c1, form, p1, G, A))
     if src != list(p1):
         bad('constructor-changes-callers-list', 'the list %r given to Group() is now %r' % (p1, src))
+    # ... and the group does not follow the caller's list afterwards: a scratch list re-used for the next group
+    scratch = list(p1)
+    G = Group(None, c1, scratch)
+    scratch[:] = list(p2) + ['Zz']
+    if not (G == A and hash(G) == hash(A) and G.name == A.name and str(G) == A.name):
+        bad('group-follows-the-callers-list', 'Group(%r, L) with L = %r, then L refilled with %r: the group is now %r' % (c1, p1, scratch, G))
     # which scheme object a group was built for plays no part: two groups made for two different scheme objects are the same
     # group exactly when centre and peripherals say so
     S1, S2 = _SCHEMES
@@ -209,6 +215,22 @@ def _pair(ctx, c1, runs1, c2, runs2, kind):
             bad('library-lookup', 'lib[%r] -> %r, in=%r, model_equal=%r' % (key, got, key in lib, model_eq))
     if lib[A] != {'payload': t1} or lib[A.name] != {'payload': t1} or len(lib) != 1 or list(lib) != [A]:
         bad('library-lookup', 'library does not find its own key %r' % A.name)
+    # the library grows (Update from another library) AFTER it has been asked by string: the new entry is found by its group, by
+    # its canonical name and by any other spelling's group alike
+    newc = c2 + 'q'
+    N = Group(None, newc, list(p2))
+    try:
+        lib.Update(GroupLibrary(None, {N: {'payload': {'v': 1}}}))
+    except Exception as e:
+        bad('library-update-raises:%s' % type(e).__name__, 'Update with one new group raised %s' % e)
+    else:
+        N2 = Group.parse(None, render(newc, runs2))
+        for key in (N, N.name, N2):
+            if lib[key] != {'payload': {'v': 1}} or key not in lib:
+                bad('library-lookup-after-update', 'after Update() brought %r: lib[%r] -> %r, in=%r' % (N.name, key, lib[key], key in lib))
+                break
+        if len(lib) != 2:
+            bad('library-lookup-after-update', 'after Update() with one new group the library has %d entries' % len(lib))
     # a library FILE that lists both names: one entry twice (refused) exactly when the two are the same group, two entries
     # otherwise (sampled: every 40th pair, files are slow)
     if t1 != t2 and sum(map(ord, t1 + '|' + t2)) % 40 == 0 and "'" not in t1 + t2 and max(len(t1), len(t2)) <= 200:   # (YAML keys end at 1024 characters)
